@@ -105,6 +105,25 @@ H void h_imc_donb(void* imcv, long threebody, char t1, char t2, char t3, void* t
   w->imc_ = imc;
   w->Imc::Worker::DoNonbonded(reinterpret_cast<Topology*>(top));
 }
+// per-frame reset of the bonded histogram: Imc::Worker::DoBonded from an arbitrary worker histogram, with an empty interaction
+// group (Topology::InteractionsInGroup is a stub returning no interaction; what EvaluateVar returns is C07)
+H void h_imc_dobonded(void* imcv, const double* h0, const double* hf0, long nbins, void* top, double* out, double* outf) {
+  Imc* imc = reinterpret_cast<Imc*>(imcv);
+  std::memset(prop_buf, 0, sizeof prop_buf);
+  for (int k = 0; k < 5; k++) new (&reinterpret_cast<votca::tools::Property*>(prop_buf[k])->value_) std::string();
+  reinterpret_cast<votca::tools::Property*>(prop_buf[1])->value_ = "A-A";
+  new (&imc->bonded_) std::vector<votca::tools::Property*>();
+  imc->bonded_.push_back(reinterpret_cast<votca::tools::Property*>(prop_buf[0]));
+  std::memset(wrk_buf, 0, sizeof wrk_buf);
+  Imc::Worker* w = reinterpret_cast<Imc::Worker*>(wrk_buf);
+  new (&w->current_hists_) std::vector<votca::tools::HistogramNew>(1);
+  new (&w->current_hists_force_) std::vector<votca::tools::HistogramNew>(1);
+  w->current_hists_[0].Initialize(0.0, (double)(nbins - 1), nbins); w->current_hists_force_[0].Initialize(0.0, (double)(nbins - 1), nbins);
+  for (long k = 0; k < nbins; k++) { w->current_hists_[0].data().y(k) = h0[k]; w->current_hists_force_[0].data().y(k) = hf0[k]; }
+  w->imc_ = imc;
+  w->Imc::Worker::DoBonded(reinterpret_cast<Topology*>(top));
+  for (long k = 0; k < nbins; k++) { out[k] = w->current_hists_[0].data().y(k); outf[k] = w->current_hists_force_[0].data().y(k); }
+}
 H void h_imc_writedist(void* imcv) { reinterpret_cast<Imc*>(imcv)->WriteDist(std::string("s")); }
 H long h_table_size(const votca::tools::Table* t) { return (long)t->size(); }
 H double h_table_x(const votca::tools::Table* t, long i) { return t->x(i); }
